@@ -105,6 +105,12 @@ def inputs_for(v, prop, tier, tag):
                 else:
                     reqs.append({"op": "del", "ks": [rnd.choice(ks) for _ in range(rnd.randint(1, 3))]})
             items.append({"reqs": reqs})
+        # DEL naming many keys (every second one stored): the count, and the requests pipelined behind it
+        for nk in (127, 128, 129, 200) if q else (64, 127, 128, 129, 200, 1000, 5000):
+            ks = [list(f"key{j:04d}".encode()) for j in range(nk)]
+            reqs = [{"op": "set", "k": k, "v": [118]} for k in ks[::2][:40]]
+            reqs += [{"op": "del", "ks": ks}, {"op": "get", "k": ks[0]}, {"op": "del", "ks": ks}]
+            items.append({"reqs": reqs})
     elif prop == "C10":
         maxlen = 3 if q else 4
         cfg = write_cfg(f"respb_h_{tag}.cfg", resp_mod.BYTES_CFG.format(alpha=resp_mod.ALPHABET, maxlen=maxlen, emit="TRUE"))
@@ -122,6 +128,11 @@ def inputs_for(v, prop, tier, tag):
             return out
         directed = {
             "unknown-verb": cmdb(b"NOPE", b"x"),
+            # verbs that merely begin with, end with or contain a real one, with arguments of the right shape
+            "verb-setnx": cmdb(b"SETNX", b"victim", b"x"), "verb-delete": cmdb(b"DELETE", b"victim"), "verb-getset": cmdb(b"GETSET", b"victim", b"x"),
+            "verb-mset": cmdb(b"MSET", b"victim", b"x"), "verb-unset": cmdb(b"UNSET", b"victim", b"x"), "verb-hdel": cmdb(b"HDEL", b"victim"),
+            "verb-set-space": cmdb(b"SET ", b"victim", b"x"), "verb-se": cmdb(b"SE", b"victim", b"x"), "verb-empty": cmdb(b"", b"victim", b"x"),
+            "verb-set-nul": cmdb(b"SET\x00", b"victim", b"x"), "verb-del-crlf": cmdb(b"DEL\r\n", b"victim"),
             "lowercase-verb": cmdb(b"set", b"victim", b"x"),
             "set-arity-2": cmdb(b"SET", b"victim"),
             "set-arity-4": cmdb(b"SET", b"victim", b"x", b"y"),
@@ -166,10 +177,13 @@ def inputs_for(v, prop, tier, tag):
         rnd.shuffle(items)
     elif prop == "C15":
         endings = ["close", "half-frame", "half-frame-open", "malformed", "garbage", "panic", "store-error", "rst-in-backlog",
-                   "accept-error", "rejected-plus-half"]
+                   "accept-error", "rejected-plus-half", "half-frame-utf8", "garbage-binary"]
         for mx in (1, 2, 3):
             for e in endings:
                 items.append({"max": mx, "endings": [e]})
+                if e in ("half-frame-utf8", "close"):
+                    # several in a row: a slot that is lost once per connection shows after max of them
+                    items.append({"max": mx, "endings": [e] * (mx + 2)})
             items.append({"max": mx, "endings": endings})
             items.append({"max": mx, "endings": [rnd.choice(endings) for _ in range(6 if q else 14)]})
     elif prop == "C16":
@@ -191,7 +205,8 @@ def inputs_for(v, prop, tier, tag):
     else:  # C11
         for i in range(16 if q else 160):
             items.append({"clients": rnd.choice([2, 3, 4]), "ops": rnd.choice([5, 6, 8]), "keys": rnd.choice([1, 1, 2]),
-                          "windows": 5 if q else 8, "delay_us": rnd.choice([200, 600, 1500]), "merger": i % 3 != 0})
+                          "windows": 5 if q else 8, "delay_us": rnd.choice([200, 600, 1500]), "merger": i % 3 != 0,
+                          "exact": i % 4 == 1, "clock": i % 4 == 2})
     return items
 
 
